@@ -31,17 +31,33 @@ FINAL_STATEMENTS = [('r :- p.', 'r :- p, &final.'), (':- p, not q.', ':- p, not 
                     ('not r :- p.\n{ r }.', 'not r :- p, &final.\n{ r } :- &final.'), ('#show.\n#show p : p.', '#show.\n#show p : p, &final.'), ('r :- #count { 1 : p ; 2 : q } > 1.', 'r :- #count { 1 : p ; 2 : q } > 1, &final.')]
 
 
-def final_cases(ctx, H):
+PART_LAWS = [('initial', '&initial'), ('dynamic', 'not &initial')]
+PART_STATEMENTS = [('r :- p.', 'r :- p, {G}.'), (':- p, not q.', ':- p, not q, {G}.'), ('{ r } :- q.', '{ r } :- q, {G}.'), ('r ; s :- not p.', 'r ; s :- not p, {G}.'), ('#show goal : p.', '#show goal : p, {G}.'),
+                   ("r :- 'p.\n#show r/0.", "r :- 'p, {G}.\n#show r/0.")]
+
+
+def part_law_pairs():
+    pairs = [('final', FINAL_BASE + '#program final.\n' + a + '\n', FINAL_BASE + '#program always.\n' + b + '\n') for a, b in FINAL_STATEMENTS]
+    for part, guard in PART_LAWS:
+        for a, b in PART_STATEMENTS:
+            if part == 'initial' and "'p" in a:
+                continue
+            pairs.append((part, FINAL_BASE + '#program %s.\n' % part + a + '\n', FINAL_BASE + '#program always.\n' + b.replace('{G}', guard) + '\n'))
+    return pairs
+
+
+def final_cases(ctx, H, pairs=None):
     import meta
+    pairs = part_law_pairs() if pairs is None else pairs
     inputs = []
-    for a, b in FINAL_STATEMENTS:
-        inputs += [[FINAL_BASE + '#program final.\n' + a + '\n'], [FINAL_BASE + '#program always.\n' + b + '\n']]
+    for _, t1, t2 in pairs:
+        inputs += [[t1], [t2]]
     res = meta.answer_sets(ctx, inputs, H, timeout=60)
     cex = []
-    for i, (a, b) in enumerate(FINAL_STATEMENTS):
+    for i, (part, t1, t2) in enumerate(pairs):
         if not meta.same(res[2 * i], res[2 * i + 1]):
-            cex.append({'key': 'c01:final-part:' + a.replace('\n', ' '), 'what': 'a statement in the final part and the same statement in the always part with &final in its body differ: %s' % json.dumps(meta.first_diff(res[2 * i], res[2 * i + 1])),
-                        'input': {'final_statement': [a, b], 'H': H, 'program': inputs[2 * i][0]}})
+            cex.append({'key': 'c01:part-law:' + t1.replace('\n', ' '), 'what': 'a statement in the %s part and the same statement in the always part with the guard of that part in its body differ: %s' % (
+                part, json.dumps(meta.first_diff(res[2 * i], res[2 * i + 1]))), 'input': {'part_law': [part, t1, t2], 'H': H, 'program': t1}})
     return cex, len(inputs)
 
 
@@ -114,13 +130,8 @@ def replay(ctx, payload):
     if 'renaming' in inp:
         import meta
         return meta.renaming_replay(ctx, payload)
-    if 'final_statement' in inp:
-        global FINAL_STATEMENTS
-        keep, FINAL_STATEMENTS = FINAL_STATEMENTS, [tuple(inp['final_statement'])]
-        try:
-            return bool(final_cases(ctx, inp.get('H', 3))[0])
-        finally:
-            FINAL_STATEMENTS = keep
+    if 'part_law' in inp:
+        return bool(final_cases(ctx, inp.get('H', 3), [tuple(inp['part_law'])])[0])
     if 'transform_rules' in inp:
         return trstruct.compare(ctx, [inp['transform_rules']])[0]['status'] != 'agree'
     r = s4.compare(ctx, [inp['rules']], inp.get('H', 3), inp.get('maxbits', 12), default_config=bool(inp.get('default_config')))[0]
